@@ -269,6 +269,13 @@ func (g *GenCtx) Gen(d *Desc, v reflect.Value, ft string) {
 		g.genDict(v)
 	case KDict: // hm_edge: at least one entry
 		g.genDictInto(v, 1)
+	case KChain: // at least one element (an empty chain writes nothing and cannot be read back)
+		n := 1 + g.Rng.Intn(3)
+		s := reflect.MakeSlice(v.Type(), n, n)
+		for i := 0; i < n; i++ {
+			g.Gen(d.Elem, s.Index(i), "p")
+		}
+		v.Set(s)
 	case KOpaque:
 		// a few unmodelled codecs whose zero value is outside their domain get a minimal in-domain value
 		switch baseName(v.Type()) {
